@@ -17,7 +17,8 @@ Record ecase := {
   k_configs : list (fname * cont_kind);
   k_parsers : list (fname * parser_kind);
   k_docs : list (doc * iadd);
-  k_queries : list (assignment * ires)
+  k_queries : list (assignment * ires);
+  k_state : option (list N * list N)    (* via hook: every posting-list entry (any order), the wildcard entries *)
 }.
 
 Definition parsers_of (l : list (fname * parser_kind)) (f : fname) : parser_kind :=
